@@ -101,6 +101,9 @@ def rep(x):
 SHARED: list = []  # list objects of the current run that were already given to some shot (reset per run)
 
 
+LARGE = [False]
+
+
 def gen_value(ch, nonbits: bool, nested: bool):
     k = ch.weighted([6, 3, 1 if nonbits else 0, 1 if nested else 0, 1 if SHARED else 0], "valkind")
     if k == 4:
@@ -109,7 +112,7 @@ def gen_value(ch, nonbits: bool, nested: bool):
     if k == 0:
         return ch.pick(VALID_SCALARS, "bit")
     if k == 1:
-        n = ch.draw(4, "len")
+        n = ch.draw(4, "len") + (ch.draw(70, "len-large") if LARGE[0] else 0)
         vs = [ch.pick(VALID_SCALARS, "bit") for _ in range(n)]
         if nonbits and ch.coin(1, 8, "badelem") and vs:
             vs[ch.draw(len(vs), "badpos")] = ch.pick(NONBITS, "nonbit")
@@ -126,7 +129,7 @@ def gen_tag(ch, odd: bool):
     if k == 0:
         return name
     if k == 1:
-        return f"{name}[{ch.draw(4, 'idx')}]"
+        return f"{name}[{ch.draw(4, 'idx') + (ch.draw(90, 'idx-large') if LARGE[0] else 0)}]"
     return ch.pick([f"{name.upper()}[1]", f"{name}[01]", f"{name}[1", f"{name}[-1]", f"_{name}[1]", f"2{name}[2]",
                     f"out.{name}[0]", f" {name}[1]", f"X{name}[3]", f"{name}[1] ", f"{name}[0][1]"], "oddtag")
 
@@ -149,8 +152,11 @@ def run(ctx):
     nested = ch.coin(1, 4, "p-nested")
     odd = ch.coin(1, 4, "p-oddtags")
     bools = True
-    ctx.profile = {"nonbits": nonbits, "nested": nested, "oddtags": odd}
-    nshots = 1 + ch.draw(4, "nshots")
+    LARGE[0] = ch.coin(1, 15, "size-class-large")
+    nshots = 1 + ch.draw(4, "nshots") + (ch.draw(25, "nshots-large") if LARGE[0] else 0)
+    if LARGE[0]:
+        ctx.probe("large_result")
+    ctx.profile = {"nonbits": nonbits, "nested": nested, "oddtags": odd, "large": LARGE[0]}
     shots = []
     logs = []
     for s in range(nshots):
@@ -164,7 +170,7 @@ def run(ctx):
         else:
             shot = QsysShot()
             entries = []
-        nent = ch.draw(7, "nentries")
+        nent = ch.draw(7, "nentries") + (ch.draw(40, "nentries-large") if LARGE[0] else 0)
         for _ in range(nent):
             tag, val = gen_tag(ch, odd), gen_value(ch, nonbits, nested)
             if entries and ch.coin(1, 6, "edit-in-place"):
